@@ -271,6 +271,10 @@ func (c *smtctx) structSort(t types.Type) string {
 		return name
 	}
 	c.declaredSorts[name] = true
+	if c.sortTypes == nil {
+		c.sortTypes = map[string]types.Type{}
+	}
+	c.sortTypes[name] = t
 	st := t.Underlying().(*types.Struct)
 	var fields []string
 	for i := 0; i < st.NumFields(); i++ {
